@@ -578,13 +578,20 @@ def iteration_context(cs):
         if n.bb in body.reachable(some, cut={cs.bb}):
             return None, "an iteration can skip the call (continue / conditional)"
         # the loop is left only when the iterator is exhausted
-        cyc = {x for x in range(body.n) if x in body.reachable_after(x) and cs.bb in body.reachable(x) and x in body.reachable(cs.bb)}
+        # the body of *this* loop (not of a loop it is nested in): what is reachable from the Some edge without taking the
+        # iterator's exhausted edge
+        sw_ = n.t["target"]
+        none_tgts = {tg for lab, tg in body.switch_edges(sw_) if tg != some} if body.term(sw_)["k"] == "switch" else set()
+        cyc = body.reachable(some, cut=none_tgts) | {n.bb, sw_}
+        cyc = {x for x in cyc if n.bb in body.reachable(x) or x in (n.bb, sw_)} | {x for x in cyc if body.term(x)["k"] in ("return",)}
         for x in cyc:
             for s_ in body.succ(x):
                 if s_ in cyc or body.term(s_)["k"] == "unreachable":
                     continue
-                if x == n.t["target"]:
+                if x == sw_:
                     continue  # the None edge of this iterator
+                return None, "the loop can be left before the iterator is exhausted (break/return inside the loop)"
+            if body.term(x)["k"] == "return":
                 return None, "the loop can be left before the iterator is exhausted (break/return inside the loop)"
         it = strip_sym(sy.operand(n.args[0]))
         src = sym_through(it, *ITER_VIEWS)
@@ -700,7 +707,7 @@ def _mut_borrowed(b, l):
     return l in cache
 
 
-def cas_loop(fn, binop, value_param=1):
+def cas_loop(fn, binop, value_param=1, field=None):
     """Decides an open-coded compare-exchange retry loop `cur = self.load(); loop { new = to_bits(from_bits(cur) OP value);
     match self.compare_exchange[_weak](cur, new, ..) { Ok => break, Err(x) => cur = x } }` on the receiver `self`:
     (ok, why).  What is required is what makes no update lost: the new value is recomputed in every iteration from the
@@ -708,6 +715,9 @@ def cas_loop(fn, binop, value_param=1):
     from self (a load, or the failed attempt's payload), and the function returns only after an attempt succeeded."""
     b = fn.body
     ops = atomic_ops(fn)
+    if field is not None:
+        # only the operations on self.<field> make up the loop; other atomics of the type (an update counter) are not its business
+        ops = [o for o in ops if (lambda r: isinstance(r, tuple) and r and r[0] == "field" and r[2] == field)(strip_sym(sym_through(o[2], "Deref::deref")))]
     cas = [o for o in ops if o[1] in ("compare_exchange", "compare_exchange_weak") and o[0].fn is fn]
     loads = [o for o in ops if o[1] == "load" and o[0].fn is fn]
     if len(cas) != 1 or len(cas) + len(loads) != len(ops):
@@ -715,7 +725,7 @@ def cas_loop(fn, binop, value_param=1):
     c = cas[0][0]
     if not in_cycle(b, c.bb):
         return False, "the compare-exchange is not retried"
-    if (sym_arg(strip_sym(cas[0][2])) or (None,))[0] != 0 or any((sym_arg(strip_sym(o[2])) or (None,))[0] != 0 for o in loads):
+    if field is None and ((sym_arg(strip_sym(cas[0][2])) or (None,))[0] != 0 or any((sym_arg(strip_sym(o[2])) or (None,))[0] != 0 for o in loads)):
         return False, "atomic operations on something other than self"
     exp = value_def(b, c.args[1])
     if exp[0] != "var":
@@ -736,6 +746,39 @@ def cas_loop(fn, binop, value_param=1):
                 ok_src = bool(dd) and dd[0] == "place" and dd[1]["l"] == c.t["dest"]["l"] and "Err" in repr(dd[1].get("pr"))
             if not ok_src:
                 return False, "the expected value is assigned something that was not atomically read from self"
+    if binop == "Max":
+        # new = max(V, value), computed inside the loop: a call to max, or `if V < value { value } else { V }`
+        nd = value_def(b, c.args[2])
+        okm = False
+        if nd[0] == "call" and strip_generics(nd[2].get("resolved") or "").split("::")[-1] == "max" and in_cycle(b, nd[1]):
+            okm = {value_def(b, a) for a in nd[2]["args"]} == {("var", V), ("var", value_param + 1)}
+        elif nd[0] == "var":
+            R = nd[1]
+            ds = b.defs().get(R, [])
+            srcs = {}
+            for d in ds:
+                if d[0] == "assign" and d[3]["rv"]["k"] == "use" and in_cycle(b, d[1]):
+                    srcs[value_def(b, d[3]["rv"]["a"])] = d[1]
+            if set(srcs) == {("var", V), ("var", value_param + 1)} and len(ds) == 2:
+                want_value = srcs[("var", value_param + 1)]
+                sy_ = Sym(fn)
+                for dd, lab in gates(b, want_value):
+                    dd = strip_sym(dd)
+                    if dd[0] == "bin" and dd[1] in ("Lt", "Le", "Gt", "Ge") and isinstance(lab, bool):
+                        av, bv = sym_arg(strip_sym(dd[2])), sym_arg(strip_sym(dd[3]))
+                        a_is_value = av is not None and av[0] == value_param
+                        b_is_value = bv is not None and bv[0] == value_param
+                        if a_is_value == b_is_value:
+                            continue
+                        value_bigger = (dd[1] in ("Gt", "Ge")) == a_is_value
+                        okm = okm or (value_bigger == lab)
+        if not okm:
+            return False, "the new value is not max(observed, value) computed inside the retry loop"
+        fl = cas_flow(fn, c)
+        rets = [r for r in b.return_blocks() if not b.blocks[r].get("cleanup")]
+        if not rets or any(fl.at(r) != "P" for r in rets):
+            return False, "the function can return without a successful compare-exchange"
+        return True, "load; loop { compare_exchange(cur, max(cur, value)) } until Ok"
     # new = to_bits(OP(from_bits(V), value)), computed inside the loop
     nd = value_def(b, c.args[2])
     if not (nd[0] == "call" and path_is(nd[2].get("resolved") or "", "to_bits") and in_cycle(b, nd[1])):
@@ -748,7 +791,13 @@ def cas_loop(fn, binop, value_param=1):
     if not (fd[0] == "call" and path_is(fd[2].get("resolved") or "", "from_bits") and in_cycle(b, fd[1]) and value_def(b, fd[2]["args"][0]) == ("var", V)):
         return False, "the new value is not computed from the expected value of the same attempt"
     if vd != ("var", value_param + 1):
-        return False, "the delta is not the value parameter"
+        # the delta may reach the loop through a closure that was spliced in (`update(|v| v + value)`)
+        sd = strip_sym(Sym(fn).operand(od[2]["b"]))
+        while isinstance(sd, tuple) and sd and sd[0] in ("capture", "ref", "deref"):
+            sd = strip_sym(sd[2] if sd[0] == "capture" and len(sd) > 2 and isinstance(sd[2], tuple) else sd[1]) if isinstance(sd[1] if sd[0] != "capture" else sd[2] if len(sd) > 2 else None, tuple) else None
+        a_ = sym_arg(sd) if sd is not None else None
+        if a_ is None or a_[0] != value_param:
+            return False, "the delta is not the value parameter"
     fl = cas_flow(fn, c)
     rets = [r for r in b.return_blocks() if not b.blocks[r].get("cleanup")]
     if not rets or any(fl.at(r) != "P" for r in rets):
